@@ -171,7 +171,7 @@ var specs = map[string]*propSpec{
 		level:       "exploration",
 		rule:        "per case one of 5 chains (empty; server_id+dns+searchdomains; prefix+dns; file+nbp; sleep+synthetic) in a fresh server process inside the private network namespace, listener bound to ve0 or unbound: (1) matrix of message types 0..255 x client-id present/absent x rapid-commit present/absent, each sent plain and wrapped in 0-4 Relay-Forward layers with random link/peer addresses and Interface-ID/Remote-ID/client-link-layer options, from random global or link-local sources and ports, arriving on ve0 or vf0; (2) 1200 (quick) / 5000 (thorough) generated datagrams (every option kind incl. nested IA options, IAPrefix lengths 0 and > 128, relay depth to 32, Relay-Reply in the wrong place, relay without relay-message) of which a third are mutated. Oracle: answered only if the codec finds an inner message of a supported type; reply type table, xid, client-id, per-layer relay mirror, innermost message equal to the stateless chain's answer to the un-relayed message, destination = source, interface pin iff link-local. Distinct by (chain, type, relay depth, source class, answered?) plus every distinct answered datagram",
 		assumptions: assume("requests without a client identifier must not get one invented; relay chains containing Relay-Reply layers are no-crash only"),
-		runs:        []runSpec{{engine: "match6", netns: true, parallel: 10, qBatches: 10, qCases: 1, tBatches: 200, tCases: 1, stall: 5 * time.Minute}, wireRun(0, 6), raceSlice()},
+		runs:        []runSpec{{engine: "match6", netns: true, parallel: 10, qBatches: 10, qCases: 1, tBatches: 200, tCases: 1, stall: 5 * time.Minute}, wireRun(0, 6), wireVarRun(), raceSlice()},
 		guards:      []guard{{"match6.replies", 2000, "replies"}, {"match6.replies_relayed", 500, "relayed replies"}, {"match6.replies_link_local", 500, "link-local replies"}, {"match6.dropped", 5000, "drops"}},
 	},
 	"C13": {
@@ -209,6 +209,9 @@ var specs = map[string]*propSpec{
 			{engine: "rangeconc", race: true, parallel: 8, qBatches: 8, qCases: 8, tBatches: 64, tCases: 50},
 			{engine: "prefixconc", race: true, parallel: 8, qBatches: 8, qCases: 8, tBatches: 64, tCases: 50},
 			{engine: "allocconc", race: true, parallel: 8, qBatches: 8, qCases: 20, tBatches: 64, tCases: 200},
+			// a slice of the sequential range engine for its lock-fault cases: two datagrams of a new client in
+			// flight while another connection holds the database's write lock (no Go-level race involved)
+			{engine: "range", parallel: 4, qBatches: 2, qCases: 16, tBatches: 8, tCases: 16},
 			wireRun(0, 8),
 		},
 		raceDecides: true,
@@ -218,7 +221,7 @@ var specs = map[string]*propSpec{
 	"C17": {
 		level:       "exploration",
 		rule:        "each case is one option plugin with an argument vector from its accepted grammar (1-4 addresses, masks /1-/32, MTU 68-65535, durations, 1-4 domains with labels up to 63 bytes, 1-4 routes incl. /0 and /32, tftp/http/https/ftp URLs with and without params), hosted alone in a fresh server process, and 48 requests (DISCOVER/REQUEST or SOLICIT/REQUEST/RENEW/INFORMATION-REQUEST; option 55 / ORO = random subsets of the relevant codes in random order, or absent; option 116 present or not; yiaddr assigned by an earlier handler or not; option 51 already set or not). Differential oracle: reply with the plugin vs reply of the same chain without it must differ exactly by the table in model/opts.go (value encoded independently from the RFCs, present once, untouched otherwise, chain continues/stops/drops as stated). Non-trivial = every (configuration, request) pair evaluated; distinct by (plugin, args, request list, flags)",
-		assumptions: assume("argument values outside the wire range (MTU > 65535, durations >= 2^32 s) are outside 'in-range' and not generated", "request lists are sets (no duplicate codes); an empty option 55 is not generated", "nbp ends the chain in the code; whether it should is not part of the statement and is not asserted"),
+		assumptions: assume("argument values outside the wire range (MTU > 65535, durations >= 2^32 s) are outside 'in-range' and not generated", "DHCPv4 request lists may name a code more than once (a quarter of them do); DHCPv6 option request lists are sets - the statement's quantifier says subsets, and the pinned nbp code answers a repeated code with a repeated option, which 'once' and 'subsets' leave unclassified; an empty option 55 is not generated", "nbp ends the chain in the code; whether it should is not part of the statement and is not asserted"),
 		runs:        []runSpec{{engine: "opt", qBatches: 16, qCases: 30, tBatches: 64, tCases: 600}, wireVarRun()},
 		guards:      []guard{{"opt.configs.ipv6only", 3, "ipv6only configurations"}, {"opt.configs.autoconfigure", 3, "autoconfigure"}, {"opt.configs.dns", 3, "dns"}, {"opt.configs.lease_time", 3, "lease_time"}},
 	},
